@@ -37,14 +37,19 @@ class TransactionBackend(Backend):
         return False
 
     async def commit(self):
-        if self._to_delete:
-            await self._backend.delete_many(*self._to_delete)
-
         expire_group = {}
+        now = time.time()
         for key, (expire, value) in self._local_cache.store.items():
             if expire:
-                expire = int(expire - time.time())
+                expire = expire - now
+                if expire <= 0:
+                    # written with a ttl that has already elapsed
+                    self._to_delete.add(key)
+                    continue
             expire_group.setdefault(expire, {})[key] = value
+
+        if self._to_delete:
+            await self._backend.delete_many(*self._to_delete)
 
         for expire, kv in expire_group.items():
             await self._backend.set_many(kv, expire=expire)
